@@ -1582,6 +1582,10 @@ class Verifier(Exec):
                         env2[rnames[i]] = e
             elif rnames and rnames[0]:
                 env2[rnames[0]] = res
+        # ghost variables of the callee: their final values are unknown to the caller
+        for g_ in spec.opts.get('ghost', []):
+            if not g_.startswith('@'):
+                env2[g_.split()[0]] = self.ctx.fresh('ghost:%s.%s' % (short_fn(callee), g_.split()[0]), INT)
         if 'pure' in spec.opts and res is not None:
             self.assume_pure(st, pre_state, callee, args, res)
         saved_alloc0, saved_oldenv = self.alloc0, self.old_env
@@ -2403,6 +2407,9 @@ class Verifier(Exec):
                     c.assume(ne(v.term, w))
                 fvs_.append(v.term)
         spec = self.spec
+        self.start_block = 0
+        if spec and spec.opts.get('region'):
+            self.region_entry(st, spec.opts['region'][0])
         shape = self.opts.get('shape')
         if shape:
             self.expand_small_quants = True
@@ -2415,6 +2422,8 @@ class Verifier(Exec):
         self.old = State()     # placeholder so heap_get can register initial heaps
         self.old.heap = {}
         eenv = self.entry_env()
+        if self.start_block:
+            eenv = dict(self.spec_env(self.scope_at_line(self.region_line)))
         self.old_env = eenv
         # global invariants / axioms
         for ax in self.specs.axioms:
@@ -2431,6 +2440,8 @@ class Verifier(Exec):
             for cl in spec.requires:
                 c.assume(self.eval_clause(cl, st, eenv, None))
                 self.nreq += 1
+                if self.start_block:
+                    self.trusted.add('assumed about the state in which %s reaches `%s`: %s' % (short_fn(self.fname), spec.opts['region'][0], cl.text))
         # snapshot entry state for old()
         old = st.copy()
         self.old = old
@@ -2442,6 +2453,96 @@ class Verifier(Exec):
             self.writable = self.eval_regions(spec.modifies or [], st, eenv) + [('fresh', self.alloc0)]
         self.exec_blocks(st)
         return c
+
+    def region_entry(self, st, anchor):
+        """`func F region @"text"`: execution starts at the block that begins with the statement quoting the text.
+        Everything computed before it is unknown: locals and temporaries defined outside the region get arbitrary
+        (type-valid) values, the heaps are the arbitrary initial heaps."""
+        fn = self.fn
+        if anchor == '<body>':
+            # the whole body under a second contract (the first one is what callers see)
+            self.ctx.notes.append('%s: the body is verified against a second contract of its own' % short_fn(self.fname))
+            return
+        src = open(fn['file']).read().split('\n')
+        lines_ = sorted(set(ins.get('line') for b in fn['blocks'] for ins in b['instrs'] if ins.get('line')))
+        cand = [l for l in lines_ if l - 1 < len(src) and anchor in src[l - 1]]
+        if len(cand) != 1:
+            raise SpecError('region anchor %r matches %d statements of %s' % (anchor, len(cand), short_fn(self.fname)))
+        line = cand[0]
+        start = None
+        for bi, b in enumerate(fn['blocks']):
+            first = [ins.get('line') for ins in b['instrs'] if ins.get('line')]
+            if first and first[0] == line and (start is None):
+                start = bi
+        if start is None:
+            raise SpecError('region anchor %r is not at the start of a basic block' % anchor)
+        self.start_block = start
+        self.region_line = line
+        # blocks of the region: reachable from the start block
+        reach, work = set([start]), [start]
+        while work:
+            x = work.pop()
+            for s in self.cfg.succs[x]:
+                if s not in reach:
+                    reach.add(s)
+                    work.append(s)
+        self.region_blocks = reach
+        defined = set()
+        for bi in reach:
+            for ins in fn['blocks'][bi]['instrs']:
+                if ins.get('name'):
+                    defined.add(ins['name'])
+        outside = {}
+
+        def note(v):
+            if isinstance(v, dict) and v.get('k') == 'reg' and v['n'] not in defined:
+                outside.setdefault(v['n'], v)
+            elif isinstance(v, dict):
+                for w in v.values():
+                    note(w)
+            elif isinstance(v, list):
+                for w in v:
+                    note(w)
+        for bi in reach:
+            for ins in fn['blocks'][bi]['instrs']:
+                note(ins)
+        addrs = []
+        for n, ref in sorted(outside.items()):
+            if n in self.allocs:
+                a = self.allocs[n]
+                if n in self.cellset:
+                    v_ = self.fresh_value('lv:%s' % (a.get('comment') or n), a['elem'])
+                    if isinstance(v_, Opaque) and self.kind(a['elem']) in ('func', 'chan') and a.get('comment'):
+                        v_ = Opaque(v_.term, v_.tid, ('field', a['comment']))     # effects name it by the variable
+                    st.cells[n] = v_
+                    st.regs[n] = PtrV(None, a['elem'], ('cell', n))
+                else:
+                    pa = self.ctx.declare_const('loc:%s' % (a.get('comment') or n), INT)
+                    self.ctx.assume(and_(lt(ZERO, pa), lt(pa, self.alloc0)))
+                    for w in addrs:
+                        self.ctx.assume(ne(pa, w))
+                    addrs.append(pa)
+                    st.regs[n] = PtrV(pa, a['elem'])
+            else:
+                tid = ref.get('type')
+                if tid is None:
+                    raise Unsupported('region: value %s defined before the region has no recorded type' % n)
+                st.regs[n] = self.fresh_value('rv:' + n, tid)
+        for n in self.cellset:
+            # cells declared before the region but only used in spec expressions
+            if n not in st.cells and n not in defined:
+                a = self.allocs[n]
+                st.cells[n] = self.fresh_value('lv:%s' % (a.get('comment') or n), a['elem'])
+        for n, a in sorted(self.allocs.items()):
+            # the same for locals that live in the heap (captured by a function literal somewhere)
+            if n not in self.cellset and n not in defined and n not in st.regs and a.get('comment'):
+                pa = self.ctx.declare_const('loc:%s.%s' % (a['comment'], n), INT)
+                self.ctx.assume(and_(lt(ZERO, pa), lt(pa, self.alloc0)))
+                for w in addrs:
+                    self.ctx.assume(ne(pa, w))
+                addrs.append(pa)
+                st.regs[n] = PtrV(pa, a['elem'])
+        self.ctx.notes.append('%s: only the part from `%s` (line %d) on is verified, from an arbitrary state satisfying the requires clauses' % (short_fn(self.fname), anchor, line))
 
     def exec_blocks(self, st0):
         cfg = self.cfg
@@ -2455,7 +2556,7 @@ class Verifier(Exec):
         out = {}       # (pred, succ) -> State (with pc including the edge condition)
         self.loopctx = {}
         for b in order:
-            if b == 0:
+            if b == getattr(self, 'start_block', 0):
                 st = st0
             else:
                 ins_ = [(p, out.get((p, b))) for p in cfg.preds[b] if (p, b) not in isback]
